@@ -221,7 +221,10 @@ TrSegInit ==
                 \cup (IF isalt /\ ObsCore(e.twinobs) # ObsCore(o) THEN {"view"} ELSE {})
                 \* C18: the embedded view equals the observation of a physical filesystem on the same folder
                 \cup (IF "truth" \in DOMAIN e /\ ~ObsMatches(o, TreeOfObs(e.truth)) THEN {"truth"} ELSE {})
-                \cup (IF "disk" \in DOMAIN e /\ ~OnDisk(e) THEN {"ondisk"} ELSE {}) IN
+                \cup (IF "disk" \in DOMAIN e /\ ~OnDisk(e) THEN {"ondisk"} ELSE {})
+                \* the state was constructed through the public API (parents first): a creation that failed or
+                \* panicked there is a violation of the creation contracts, not a tool problem
+                \cup (IF "popfail" \in DOMAIN e /\ e.popfail # <<>> THEN {"populate"} ELSE {}) IN
      /\ world' = w
      /\ cfg' = [kind |-> e.kind, name |-> e.cfg, sup |-> Range(e.sup), ro |-> e.ro,
                 prefix |-> IF "prefix" \in DOMAIN e THEN e.prefix ELSE <<>>]
